@@ -122,11 +122,6 @@ func (fr *Frame) execRangeNext(ins ssa.Instruction, st *State) *State {
 	return nil
 }
 
-func (fr *Frame) chanLen(a Term, st *State) Term {
-	fail("len(chan) outside the subset")
-	return Term{}
-}
-
 func itoa(n int) string {
 	return IntLit(int64(n)).S
 }
